@@ -28,7 +28,7 @@ export const STATEMENTS = {
   vslotsFn: (N) => `export const ${N} = () => <A0 v-slots={{ x: () => [g0] }}>{() => [f0()]}</A0>;`,
   textAndPragmaLike: (N) => `export const ${N} = () => <div>  a  {g0} b </div>;`,
   boundTagParam: (N) => `import ${N}_C from "probe:kid";\nexport function ${N}(Pq = ${N}_C) { return <Pq x={g0}>t</Pq>; }`,
-  reassignModuleLevelVar: (N) => `import ${N}_Box from "probe:kid";\nvar ${N}_x = "prev";\n${N}_x = <${N}_Box>{${N}_x}</${N}_Box>;\nexport const ${N} = () => ${N}_x;`,
+  reassignModuleLevelVar: (N) => `import Box_${N} from "probe:kid";\nvar ${N}_x = "prev";\n${N}_x = <Box_${N}>{${N}_x}</Box_${N}>;\nexport const ${N} = () => ${N}_x;`,
   paramNamedH: (N) => `import ${N}_C from "probe:kid";\nexport const ${N} = () => ((Box, h) => <Box>{h()}</Box>)(${N}_C, () => g0);`,
   reassignShared: (N) => `let shared = "prev";\nexport const ${N} = () => { shared = <A0>{shared}</A0>; return shared; };`,
   divCallChild: (N) => `export const ${N} = () => <div>{f0()}</div>;`,
